@@ -1,6 +1,6 @@
 (* Properties/C15.v — gradual calculators obey the iterator protocol. *)
 From Coq Require Import ZArith List Bool.
-From V Require Import F64 Gradual GradualProofs.
+From V Require Import F64 Gradual GradualProofs TaikoProofs.
 Import ListNotations.
 Open Scope Z_scope.
 
@@ -50,14 +50,12 @@ Theorem C15_machine_from_any_state : forall (S : Type) (process : S -> Z -> S) (
 Proof. exact machine_refines. Qed.
 Print Assumptions C15_machine_from_any_state.
 
-(* taiko: known finding F6 — protocol violated when the first two objects are not both
-   hits (len underflows) or the map has fewer than three objects *)
-Theorem C15_taiko_first_not_hit_refuted :
-  exists flags ops, taiko_run flags ops <> taiko_spec flags ops.
-Proof. exact taiko_first_not_hit_refuted. Qed.
-Print Assumptions C15_taiko_first_not_hit_refuted.
-
-Theorem C15_taiko_short_map_refuted :
-  exists flags ops, (length flags < 3)%nat /\ taiko_run flags ops <> taiko_spec flags ops.
-Proof. exact taiko_short_map_refuted. Qed.
-Print Assumptions C15_taiko_short_map_refuted.
+(* taiko (after the fix 8d6162b): the same protocol theorem — nth exhausts and returns None past
+   the end, len = number of hits still to come (never underflows), None forever afterwards *)
+Theorem C15_taiko : forall (S : Type) (process : S -> Z -> S) (s0 : S) (flags : list bool),
+  zlen flags < 18446744073709551616 -> forall ops : list gop, Forall nth_ok ops ->
+  run_gops (taiko_next S process flags) (taiko_nth S process flags) (taiko_len S flags) (fun v => v) ops
+           (taiko_new S s0)
+  = spec_gops (oneshots (taiko_oneshot S process s0 flags) (taiko_total_hits flags)) ops.
+Proof. exact taiko_gradual_refines. Qed.
+Print Assumptions C15_taiko.
